@@ -425,6 +425,177 @@ fn builtin_case(c: &Callables, max_arity: u32, n: u64) -> String {
     }
 }
 
+/// keyword arguments: every built-in called with one keyword argument out of the names any built-in
+/// or contrib callable understands, bound to every boundary value (callables that take their options
+/// only by keyword are not reached by positional argument tuples)
+const KWARG_NAMES: &[&str] = &[
+    "length", "killwords", "end", "leeway", "attribute", "reverse", "case_sensitive", "default", "boolean", "width", "first", "blank", "indent", "fill_with", "precision", "method", "start", "step",
+    "n", "html", "min", "max", "count", "sep", "maxsplit", "by", "key", "value", "d", "binary", "wrapstring", "break_long_words", "break_on_hyphens", "keepends", "chars", "sort_keys", "safe",
+];
+const KWARG_RECEIVERS: &[&str] = &["'abc def ghi jkl'", "[3, 1, 2]", "5", "{'a': 1}"];
+
+fn kwargs_total(c: &Callables) -> u64 {
+    ((c.filters.len() + c.tests.len()) * KWARG_RECEIVERS.len() + c.functions.len()) as u64 * (KWARG_NAMES.len() * ARGS.len()) as u64
+}
+
+fn kwargs_case(c: &Callables, n: u64) -> String {
+    let per = (KWARG_NAMES.len() * ARGS.len()) as u64;
+    let which = n / per;
+    let kw = format!("{}={}", KWARG_NAMES[((n % per) as usize) / ARGS.len()], ARGS[((n % per) as usize) % ARGS.len()]);
+    let nr = KWARG_RECEIVERS.len() as u64;
+    let nf = c.filters.len() as u64 * nr;
+    let nt = c.tests.len() as u64 * nr;
+    if which < nf {
+        format!("{{{{ {}|{}({}) }}}}", KWARG_RECEIVERS[(which % nr) as usize], c.filters[(which / nr) as usize], kw)
+    } else if which < nf + nt {
+        let w = which - nf;
+        format!("{{{{ {} is {}({}) }}}}", KWARG_RECEIVERS[(w % nr) as usize], c.tests[(w / nr) as usize], kw)
+    } else {
+        format!("{{{{ {}({}) }}}}", c.functions[(which - nf - nt) as usize], kw)
+    }
+}
+
+/// an error formatted into a sink that fails: every one of the five forms of every one of a set of
+/// failing templates, written to a `fmt::Write` that accepts k bytes and then reports an error, for
+/// every k (formatting must hand the sink's error on, never panic over it)
+const SINK_TEMPLATES: &[&str] = &[
+    "{{ 1 +", "a\nb\n{{ nofunc(x) }}\nc\nd", "{% for i in xs %}\n{{ i // 0 }}\n{% endfor %}", "{{ 'é☃' ~ (xs|nofilter) }}", "{% include 'missing' %}", "l1\nl2\nl3\nl4\n{{ [1,\n 2]|join(1, 2, 3, 4) }}\nl7\nl8\nl9",
+    "{% extends 'p' %}{% block b %}{{ super() }}{{ undefined_fn() }}{% endblock %}",
+];
+struct FailingSink {
+    left: usize,
+}
+impl std::fmt::Write for FailingSink {
+    fn write_str(&mut self, s: &str) -> std::fmt::Result {
+        if s.len() > self.left {
+            self.left = 0;
+            return Err(std::fmt::Error);
+        }
+        self.left -= s.len();
+        Ok(())
+    }
+}
+
+fn sink_case(env: &Environment, n: u64, cc: &mut ChildCtx) {
+    let src = SINK_TEMPLATES[(n as usize) % SINK_TEMPLATES.len()];
+    let err = match env.template_from_named_str("t.html", src) {
+        Err(e) => e,
+        Ok(t) => match t.render(std_ctx()) {
+            Err(e) => e,
+            Ok(_) => {
+                cc.outcome("sink template renders");
+                return;
+            }
+        },
+    };
+    let mut full = String::new();
+    let _ = write!(full, "{:#?}{}", err, err.display_debug_info());
+    let max = full.len() + 8;
+    let mut k = 0usize;
+    while k <= max {
+        for form in 0..5 {
+            let mut sink = FailingSink { left: k };
+            let _ = match form {
+                0 => write!(sink, "{}", err),
+                1 => write!(sink, "{:#}", err),
+                2 => write!(sink, "{:?}", err),
+                3 => write!(sink, "{:#?}", err),
+                _ => write!(sink, "{}", err.display_debug_info()),
+            };
+        }
+        k += if k < 600 { 1 } else { 41 };
+    }
+    cc.outcome("error formatted into failing sinks");
+}
+
+/// templates of more than 65 535 lines whose failing construct lies beyond that line, on one line and
+/// spanning two or three: line numbers are kept in 16 bits inside the engine, nothing may depend on
+/// their being exact
+const HUGE_FAULTS: &[&str] = &[
+    "{{ nofunc() }}", "{{ [1,\n2]|nofilter }}", "{{ (1 +\n 'a') }}", "{% for a, b in [1,\n2] %}{% endfor %}", "{{ 'abc\ndef' + }}", "{{ x|join(1,\n2,\n3, 4) }}", "{% if x\n%}{{ 1 // 0 }}{% endif %}",
+    "{{ xs.nope\n.deeper }}", "    {{\n1 // 0 }}", "{{ 1 //\n\n\n 0 }}", "{%\nnotatag %}",
+];
+const HUGE_LINES: &[usize] = &[65_533, 65_534, 65_535, 65_536, 65_537, 70_000, 131_072];
+
+fn huge_case(n: u64) -> String {
+    let f = HUGE_FAULTS[(n as usize) % HUGE_FAULTS.len()];
+    let lines = HUGE_LINES[(n as usize) / HUGE_FAULTS.len()];
+    format!("{}{}\ntail", "\n".repeat(lines), f)
+}
+
+/// syntax configurations: every choice of up to two of the eight delimiter / prefix settings out of
+/// a 13-string alphabet (empty, one character, default markers, markers of another kind, blanks,
+/// multi-byte, newline), the others at their defaults; what `build()` accepts must lex 12 templates
+const CFG_STRINGS: &[&str] = &["", "{", "{{", "{%", "{#", "}}", "%}", "#}", "<", "x", " ", "é", "\n"];
+const CFG_TEMPLATES: &[&str] = &["", "{#", "{# c #}", "{{ 1 }}", "{% if 1 %}x{% endif %}", "x\n# y\n## z", "é{{é}}", "{{", "<x>", "{% raw %}{{{% endraw %}", " { { ", "a}}b%}c#}d"];
+
+fn cfg_total() -> u64 {
+    let s = CFG_STRINGS.len() as u64;
+    // slot pairs (i <= j; i == j means one slot only) x strings x strings
+    (8 * 9 / 2) * s * s
+}
+
+fn cfg_case(n: u64) -> (usize, usize, &'static str, &'static str) {
+    let s = CFG_STRINGS.len() as u64;
+    let pair = n / (s * s);
+    let (mut i, mut j, mut k) = (0usize, 0usize, 0u64);
+    'outer: for a in 0..8 {
+        for b in a..8 {
+            if k == pair {
+                i = a;
+                j = b;
+                break 'outer;
+            }
+            k += 1;
+        }
+    }
+    (i, j, CFG_STRINGS[((n / s) % s) as usize], CFG_STRINGS[(n % s) as usize])
+}
+
+fn cfg_run(n: u64, cc: &mut ChildCtx) {
+    let (i, j, a, b) = cfg_case(n);
+    let mut slots: [Option<&str>; 8] = [None; 8];
+    slots[i] = Some(a);
+    slots[j] = Some(b);
+    let mut bld = minijinja::syntax::SyntaxConfig::builder();
+    let d = ["{%", "%}", "{{", "}}", "{#", "#}"];
+    let g = |k: usize| slots[k].unwrap_or(d[k]).to_string();
+    bld.block_delimiters(g(0), g(1)).variable_delimiters(g(2), g(3)).comment_delimiters(g(4), g(5));
+    if let Some(p) = slots[6] {
+        bld.line_statement_prefix(p.to_string());
+    }
+    if let Some(p) = slots[7] {
+        bld.line_comment_prefix(p.to_string());
+    }
+    match bld.build() {
+        Err(e) => {
+            fmt_error(&e);
+            cc.outcome("syntax configuration refused");
+        }
+        Ok(sc) => {
+            let mut env = Environment::new();
+            env.set_syntax(sc);
+            for opts in 0..2 {
+                env.set_trim_blocks(opts == 1);
+                env.set_lstrip_blocks(opts == 1);
+                for t in CFG_TEMPLATES {
+                    // the template in default spelling and with its markers replaced by the configured ones
+                    let t2 = t.replace("{%", &g(0)).replace("%}", &g(1)).replace("{{", &g(2)).replace("}}", &g(3)).replace("{#", &g(4)).replace("#}", &g(5));
+                    for src in [t.to_string(), t2] {
+                        match env.render_str(&src, std_ctx()) {
+                            Ok(_) => cc.outcome("configured syntax renders"),
+                            Err(e) => {
+                                fmt_error(&e);
+                                cc.outcome("configured syntax reports an error");
+                            }
+                        }
+                    }
+                }
+            }
+        }
+    }
+}
+
 const DEPTH_SHAPES: &[&str] = &[
     "neg", "not", "elif", "filter_chain", "add_const", "add_var", "concat", "attr_chain", "call_chain", "index_chain", "nested_list", "nested_paren", "nested_map", "nested_if", "nested_for",
     "nested_with", "nested_macro", "assign_parens", "is_chain", "ternary_chain", "deep_data_list", "list_append_loop", "namespace_self", "nested_filter_block", "nested_set_block", "compare_chain", "and_chain", "string_escape", "long_ident",
@@ -606,6 +777,13 @@ fn run_case(family: &str, n: u64, cc: &mut ChildCtx) {
         "counts" => {
             exercise_template(env, &count_case(n), &ctx, cc);
         }
+        "kwargs" => {
+            let src = CALLABLES.with(|c| kwargs_case(c, n));
+            exercise_template(env, &src, &ctx, cc);
+        }
+        "error_sinks" => sink_case(env, n, cc),
+        "huge_lines" => exercise_template(env, &huge_case(n), &ctx, cc),
+        "syntax_configs" => cfg_run(n, cc),
         "big_lazy" => {
             let f = BIG_LAZY_FILTERS[(n as usize) % BIG_LAZY_FILTERS.len()];
             let r = BIG_LAZY_RECEIVERS[(n as usize) / BIG_LAZY_FILTERS.len()];
@@ -664,6 +842,14 @@ fn describe(family: &str, n: u64) -> String {
         }
         "format_strings" => format!("format string {:?} through |format (positional, mapping) and str.format", ranked_string(n, FMT_PIECES)),
         "compose" => format!("{:?}", compose_case(n)),
+        "kwargs" => kwargs_case(&callables(), n),
+        "error_sinks" => format!("error of {:?} formatted into sinks failing after k bytes", SINK_TEMPLATES[(n as usize) % SINK_TEMPLATES.len()]),
+        "huge_lines" => format!("{} empty lines then {:?}", HUGE_LINES[(n as usize) / HUGE_FAULTS.len()], HUGE_FAULTS[(n as usize) % HUGE_FAULTS.len()]),
+        "syntax_configs" => {
+            let (i, j, a, b) = cfg_case(n);
+            let names = ["block_start", "block_end", "variable_start", "variable_end", "comment_start", "comment_end", "line_statement_prefix", "line_comment_prefix"];
+            format!("syntax {}={:?} {}={:?}", names[i], a, names[j], b)
+        }
         "counts" => format!("{} x{} :: {}", COUNT_KINDS[(n as usize) / COUNT_NS.len()], COUNT_NS[(n as usize) % COUNT_NS.len()], count_case(n).chars().take(300).collect::<String>()),
         "big_lazy" => format!("{{{{ {}|{} }}}}", BIG_LAZY_RECEIVERS[(n as usize) / BIG_LAZY_FILTERS.len()], BIG_LAZY_FILTERS[(n as usize) % BIG_LAZY_FILTERS.len()]),
         "afterlife" => format!("{} :: {}", AFTER_MAKERS[(n as usize) / AFTER_USES.len()].0, after_case(n)),
@@ -698,7 +884,7 @@ fn classify(ev: &Event, desc: &str) -> String {
     let input_class = match ev.family.as_str() {
         "depth" => desc.split(' ').next().unwrap_or("").to_string(),
         "accumulate" => format!("accumulate:{}", desc.split(' ').next().unwrap_or("")),
-        "builtins2" | "builtins3" => {
+        "builtins2" | "builtins3" | "kwargs" => {
             // the callable name
             let d = desc;
             if let Some(i) = d.find('|') {
@@ -782,6 +968,14 @@ pub fn main(args: Args) -> i32 {
     let ncounts = (COUNT_KINDS.len() * COUNT_NS.len()) as u64;
     shards.extend(crash::shards_for("counts", ncounts, 20, "2m", "release"));
     shards.extend(crash::shards_for("counts", ncounts, 20, "2m", "debug"));
+    let nkw = kwargs_total(&c);
+    shards.extend(crash::shards_for("kwargs", nkw, 20_000, "2m", "release"));
+    acc.count("cases_kwargs", nkw);
+    shards.extend(crash::shards_for("error_sinks", SINK_TEMPLATES.len() as u64, 1, "2m", "release"));
+    let nhuge = (HUGE_FAULTS.len() * HUGE_LINES.len()) as u64;
+    shards.extend(crash::shards_for("huge_lines", nhuge, 4, "2m", "release"));
+    shards.extend(crash::shards_for("syntax_configs", cfg_total(), 500, "2m", "release"));
+    acc.count("cases_syntax_configs", cfg_total());
     let nfmt = fmt_total();
     shards.extend(crash::shards_for("format_specs", nfmt, 2_000, "2m", "release"));
     let nfmts = ranked_total(if quick { 4 } else { 5 }, FMT_PIECES.len() as u64);
